@@ -57,6 +57,8 @@ def gen_case(rng: random.Random, tier: str) -> dict:
     enc = {v: rng.choice(opts) for v, opts in ENC.items()}
 
     def part(maxterms=4):
+        if rng.random() < 0.12:  # a column-less part
+            return rng.choice(["0", "-1", "1 - 1", "0 + x - x"])
         terms, seen = [], set()
         for _ in range(rng.randint(1, maxterms)):
             vs = rng.sample(list(enc), rng.randint(1, 2))
